@@ -199,6 +199,7 @@ def run(r):
                             "primitives_in_generator": len(all_prims),
                             "primitives_in_a_completed_program": len(all_prims) - len(never),
                             "primitives_never_completed": never[:60],
+                            "regression_inputs_replayed": sum(l.get("regression", 0) for l in lines if "regression" in l),
                             "corpus_chunks": ctot.get("cases", 0), "corpus_chunks_completed": ctot.get("ok", 0),
                             "corpus_values_checked": ctot.get("values", 0),
                             "skipped_cases(hang/crash)": [list(s) for s in (skipped + cskipped)[:10]],
